@@ -16,7 +16,9 @@ RULE = ("case = (p, register array): arrays reached by real adds of random key s
         "drawn from the ideal register law at the same loads, and synthetic arrays (uniform small ranks, all-maximum, one "
         "zero register, all zero but one, number of zero registers chosen so that linear counting lands just below / just "
         "above threshold[p], rank mix chosen so that the raw estimate lands just below / just above 5m); non-trivial = "
-        "array with at least one non-zero register; distinct = by (p, array digest)")
+        "array with at least one non-zero register; distinct = by (p, array digest); also: p passed as narrow NumPy scalars, one object "
+        "shown several states of equal byte sum, 8 threads querying 4 sketches at once, and files with extra / perturbed members loaded "
+        "next to an unrelated sketch whose answers and shipped tables must not move")
 ASSUMPTIONS = ["the bias/raw-estimate/threshold tables shipped in hll_constants.py are trusted data (only their stated structure is checked)",
                "agreement is required to relative 1e-9 (summation order may differ by ulps)"]
 LEVEL_TEXT = ("Every p in 7..16 and all four estimator branches (linear counting, bias-corrected with zero registers, "
